@@ -162,6 +162,8 @@ func runC18(r *Run, verifDir string) {
 	r.Assume = append(r.Assume, "C01.P5 (the generic container produces only types the generic encoder accepts)", "dates are restricted to years 1..9999 by the property")
 	r.NotCov = append(r.NotCov, "idempotence of normalisation as such (byte equality of the second re-encoding): value level", "non-zero padding, over-long big integers, reordered fields: acceptance/normalisation is value level", "uniform leniency of the three Struct readers (X4 of the design) is not implemented as a rule")
 	c.x1Ranges()
+	c.x1ParserDomain()
+	c.x4BinaryReaderTotal()
 	c.x2WriterPanics()
 	c.l1Hex("C18.X3")
 	c.l2Base("C18.X3")
@@ -266,6 +268,55 @@ func (c *lexCtx) l1Separators() {
 			r.OK("C04.L1", key, wfn.Pos(), "mask flags joined with %q and split on %q", wsep, rsep)
 		} else {
 			r.Bad("C04.L1", key, wfn.Pos(), "mask flags are joined with %q by the writer but split on %q by the reader", wsep, rsep)
+		}
+		// the empty mask: the writer emits "" for the value 0; strings.Split("", sep) yields one empty part,
+		// which the reader must skip (strings.Fields drops it by itself)
+		usesSplit := false
+		var parses []ssa.Instruction
+		var emptyTests []*ssa.BinOp
+		allInstrs(rfn, func(in ssa.Instruction) {
+			switch x := in.(type) {
+			case *ssa.Call:
+				id := callID(&x.Call)
+				if id.is("strings", "", "Split") {
+					usesSplit = true
+				}
+				if id.pkg == "strconv" && strings.HasPrefix(id.name, "Parse") || id.is(ttlvPath, "", "BitmaskByStr") {
+					parses = append(parses, x)
+				}
+			case *ssa.BinOp:
+				if x.Op == token.EQL || x.Op == token.NEQ {
+					for _, side := range []ssa.Value{x.X, x.Y} {
+						if k, ok := side.(*ssa.Const); ok && k.Value != nil && constStringVal(k) == "" && isStringConst(k) {
+							emptyTests = append(emptyTests, x)
+						}
+					}
+				}
+			}
+		})
+		ekey := "ttlv." + fmtName + "/empty-mask"
+		if !usesSplit {
+			r.OK("C04.L1", ekey, rfn.Pos(), "the reader splits with strings.Fields: the empty string written for a mask of 0 reads back as 0")
+		} else {
+			guarded := len(parses) > 0
+			for _, pc := range parses {
+				ok := false
+				for _, dc := range dominatingConds(pc.Block()) {
+					for _, et := range emptyTests {
+						if dc.cond == ssa.Value(et) && (et.Op == token.NEQ) == dc.outcome {
+							ok = true
+						}
+					}
+				}
+				if !ok {
+					guarded = false
+				}
+			}
+			if guarded {
+				r.OK("C04.L1", ekey, rfn.Pos(), "empty parts are skipped before parsing: the empty string written for a mask of 0 reads back as 0")
+			} else {
+				r.Bad("C04.L1", ekey, rfn.Pos(), "the writer emits the empty string for a mask of 0, strings.Split turns it into one empty part, and the reader parses that part without skipping it: a mask of 0 is written but cannot be read back in %s", fmtName)
+			}
 		}
 		// date-time layout
 		wd := p.Func("ttlv", fmtName+"Writer", "DateTime")
@@ -898,4 +949,168 @@ func isParamOrSpill(v ssa.Value, prm *ssa.Parameter) bool {
 		}
 	}
 	return false
+}
+
+func isStringConst(k *ssa.Const) bool {
+	b, ok := k.Type().Underlying().(*types.Basic)
+	return ok && b.Info()&types.IsString != 0
+}
+
+// ---------------------------------------------------------------- X1 (parser domain)
+
+type parseSite struct {
+	fn     string // ParseInt | ParseUint
+	base   int64
+	bits   int64
+	pos    token.Pos
+	via    string
+}
+
+// reachableParses lists strconv.Parse(U)int calls reachable from fn through ttlv helpers, resolving a
+// helper's `bits` parameter from the constant passed by its caller.
+func reachableParses(fn *ssa.Function, bind map[*ssa.Parameter]int64, depth int, via string) []parseSite {
+	var out []parseSite
+	if fn == nil || fn.Blocks == nil || depth > 3 {
+		return out
+	}
+	resolve := func(v ssa.Value) (int64, bool) {
+		if k, ok := constIntVal(v); ok {
+			return k, true
+		}
+		if prm, ok := v.(*ssa.Parameter); ok {
+			k, ok := bind[prm]
+			return k, ok
+		}
+		return 0, false
+	}
+	allInstrs(fn, func(in ssa.Instruction) {
+		call, ok := in.(*ssa.Call)
+		if !ok {
+			return
+		}
+		id := callID(&call.Call)
+		if id.pkg == "strconv" && (id.name == "ParseInt" || id.name == "ParseUint") {
+			b, ok1 := resolve(call.Call.Args[1])
+			w, ok2 := resolve(call.Call.Args[2])
+			if !ok1 {
+				b = -1
+			}
+			if !ok2 {
+				w = -1
+			}
+			out = append(out, parseSite{id.name, b, w, call.Pos(), via})
+			return
+		}
+		sc := call.Call.StaticCallee()
+		if sc == nil || idOf(sc).pkg != ttlvPath || idOf(sc).recv != "" || sc == fn {
+			return
+		}
+		if !strings.HasPrefix(sc.Name(), "parse") {
+			return
+		}
+		nb := map[*ssa.Parameter]int64{}
+		for i, a := range call.Call.Args {
+			if i < len(sc.Params) {
+				if k, ok := resolve(a); ok {
+					nb[sc.Params[i]] = k
+				}
+			}
+		}
+		out = append(out, reachableParses(sc, nb, depth+1, via+">"+sc.Name())...)
+	})
+	return out
+}
+
+func (c *lexCtx) x1ParserDomain() {
+	r, p := c.r, c.p
+	r.Rule("C18.X1d", "the text parsers accept every spelling the writers emit for the type: unsigned 32-bit kinds (Interval, Enumeration) are never parsed with a signed 32-bit parser, 64-bit hex never with a signed 64-bit parser", 8)
+	type kind struct {
+		method        string
+		unsigned      bool
+		width         int64
+	}
+	kinds := []kind{{"Interval", true, 32}, {"Enum", true, 32}, {"Integer", false, 32}, {"LongInteger", false, 64}}
+	for _, recv := range []string{"xmlReader", "jsonReader"} {
+		for _, k := range kinds {
+			fn := p.Func("ttlv", recv, k.method)
+			key := "ttlv." + recv + "." + k.method + "/parser-domain"
+			if fn == nil {
+				r.Unk("C18.X1d", key, token.NoPos, "anchor missing")
+				continue
+			}
+			sites := reachableParses(fn, nil, 0, recv+"."+k.method)
+			if len(sites) == 0 {
+				r.Trivial("C18.X1d", key, fn.Pos(), "no strconv parse (numbers come from encoding/json)")
+				continue
+			}
+			bad := ""
+			for _, s := range sites {
+				if s.bits < 0 || s.base < 0 {
+					bad = fmt.Sprintf("%s with a base/width the rule cannot resolve (%s)", s.fn, s.via)
+					continue
+				}
+				switch {
+				case s.base == 10 && k.unsigned && s.fn == "ParseInt" && s.bits <= k.width:
+					bad = fmt.Sprintf("decimal values are parsed with strconv.ParseInt(_, 10, %d) (via %s) although the writers emit every value up to 2^%d-1 in decimal: the upper half of the range is written but cannot be read back", s.bits, s.via, k.width)
+				case s.base == 16 && s.fn == "ParseInt" && s.bits <= k.width:
+					bad = fmt.Sprintf("hexadecimal values are parsed with strconv.ParseInt(_, 16, %d) (via %s): bit patterns with the top bit set are rejected", s.bits, s.via)
+				case s.bits < k.width:
+					bad = fmt.Sprintf("values are parsed on %d bits (via %s) for a %d-bit type", s.bits, s.via, k.width)
+				}
+			}
+			if bad != "" {
+				r.Bad("C18.X1d", key, fn.Pos(), "%s.%s: %s", recv, k.method, bad)
+			} else {
+				r.OK("C18.X1d", key, fn.Pos(), "%d parse call(s) cover the %d-bit %s domain", len(sites), k.width, map[bool]string{true: "unsigned", false: "signed"}[k.unsigned])
+			}
+		}
+	}
+}
+
+// ---------------------------------------------------------------- X4
+
+// x4BinaryReaderTotal: every well-formed binary item is a value: the typed reads of the binary reader fail
+// only through assertType (wrong tag/type/end of data) or Next (the following item is malformed).
+func (c *lexCtx) x4BinaryReaderTotal() {
+	r, p := c.r, c.p
+	r.Rule("C18.X4", "the binary typed reads reject no value: their only errors are assertType and Next", 10)
+	for _, m := range []string{"Integer", "LongInteger", "BigInteger", "Enum", "Bool", "TextString", "ByteString", "DateTime", "Interval", "Bitmask"} {
+		fn := p.Func("ttlv", "ttlvReader", m)
+		key := "ttlv.ttlvReader." + m + "/total"
+		if fn == nil {
+			r.Unk("C18.X4", key, token.NoPos, "anchor missing")
+			continue
+		}
+		bad := token.NoPos
+		allInstrs(fn, func(in ssa.Instruction) {
+			ret, ok := in.(*ssa.Return)
+			if !ok {
+				return
+			}
+			ev := ret.Results[len(ret.Results)-1]
+			if isNilConst(ev) {
+				return
+			}
+			if call, ok := ev.(*ssa.Call); ok {
+				id := callID(&call.Call)
+				if id.pkg == ttlvPath && id.recv == "ttlvReader" && (id.name == "assertType" || id.name == "Next") {
+					return
+				}
+			}
+			if ex, ok := ev.(*ssa.Extract); ok {
+				if call, ok := ex.Tuple.(*ssa.Call); ok {
+					id := callID(&call.Call)
+					if id.pkg == ttlvPath && id.recv == "ttlvReader" {
+						return // delegation to another typed read (Bitmask -> Integer)
+					}
+				}
+			}
+			bad = ret.Pos()
+		})
+		if bad.IsValid() {
+			r.Bad("C18.X4", key, bad, "ttlvReader.%s can fail on the value of a well-formed item: a value that the text readers accept and the binary writer emits is then rejected when the forwarded binary message is decoded again", m)
+		} else {
+			r.OK("C18.X4", key, fn.Pos(), "fails only through assertType or Next")
+		}
+	}
 }
